@@ -1,6 +1,7 @@
 import PP.Lemmas.RootsUpd
 import PP.Lemmas.RootsFind
 import PP.Lemmas.RootsLayout
+import PP.Lemmas.RootsSplit
 /-
 C18  Path rebasing maps remote paths to the right local files and classes.
 
@@ -273,18 +274,37 @@ end PP.C18
 namespace PP.C18
 open PP Bytes
 
-/-- 7. `findRoots` soundness, for every oracle: when it does not panic,
-* `RemoteGOROOT` is what it was, or there is a stack frame file `f` whose
-  normalised path is `r ++ "/" ++ rel` with `rel` a file under
-  `LocalGOROOT/src`, and the root is `r` minus its last 4 bytes (`/src`);
+/-- 0. `findRoots` cannot panic: since the fix (`strings.HasSuffix(r, "/src")`
+resp. `"/pkg/mod"` instead of `r != ""`) the slice expressions
+`r[:len(r)-len(src)]` are in range, for every oracle and every dump. -/
+theorem findRoots_no_panic (fs : FS) (s : Snapshot) : ∃ st, Snapshot.findRoots fs s = .ok st :=
+  findRootsLoop_ok fs s.localGOROOT s.localGOPATHs _ _
+
+/-- 0'. … and neither can `guessPaths`. -/
+theorem guessPaths_no_panic (fs : FS) (s : Snapshot) : ∃ r, Snapshot.guessPaths fs s = .ok r := by
+  obtain ⟨st, h⟩ := findRoots_no_panic fs s
+  unfold Snapshot.guessPaths
+  rw [h]
+  exact ⟨_, rfl⟩
+
+/-- the slice is valid whenever the suffix test succeeds -/
+theorem hasSuffix_length_le {r suf : Bytes} (h : hasSuffix r suf = true) : suf.length ≤ r.length :=
+  length_le_of_hasSuffix h
+
+/-- 7. `findRoots` soundness, for every oracle (`RootWitness fs f loc suf k`:
+`k ++ suf` is `parts[:i]` joined for some `0 < i < len(parts)`,
+`parts = splitPath f`, and `loc/parts[i:]` is a file):
+* `RemoteGOROOT` is what it was, or there is a stack frame file `f` such that
+  `RemoteGOROOT ++ "/src"` is a proper prefix `parts[:i]` of its parts and the
+  rest is a file under `LocalGOROOT/src`;
 * every `RemoteGOPATHs` entry `(k, l)` has `l ∈ LocalGOPATHs` and such a witness
-  under `l/src` (4 bytes cut) or `l/pkg/mod` (8 bytes cut);
+  with `k ++ "/src"` under `l/src`, or `k ++ "/pkg/mod"` under `l/pkg/mod`;
 * every `LocalGomods` entry is a proper directory prefix `parts[:i]` of a stack
   frame file whose `go.mod` was read and matched `module` with that value, or
   `path.Dir(f)` of an existing frame file with value `main`. -/
 theorem findRoots_sound (fs : FS) (s : Snapshot) {st : RootsState} (h : s.findRoots fs = .ok st) :
     (st.goroot = s.remoteGOROOT ∨
-      ∃ f ∈ getFiles s.goroutines, RootWitness fs f (s.localGOROOT ++ srcDir) 4 st.goroot) ∧
+      ∃ f ∈ getFiles s.goroutines, RootWitness fs f (s.localGOROOT ++ srcDir) srcDir st.goroot) ∧
     (∀ kv ∈ st.gopaths, GopathOK fs s.localGOPATHs (getFiles s.goroutines) kv) ∧
     (∀ kv ∈ st.gomods, GomodOK fs (getFiles s.goroutines) kv) := by
   have hs : Sound fs s.localGOROOT s.localGOPATHs (getFiles s.goroutines) s.remoteGOROOT
@@ -292,35 +312,108 @@ theorem findRoots_sound (fs : FS) (s : Snapshot) {st : RootsState} (h : s.findRo
   have := findRootsLoop_sound (getFiles s.goroutines) (fun _ h => h) hs h
   exact ⟨this.goroot, this.gopaths, this.gomods⟩
 
+/-- 7, GOPATH, at the level of path components: for a detected entry `(k, l)`
+there is a frame of some stack, with parts `parts = splitPath(path)`, and a cut
+`0 < i < len(parts)` such that `k ++ "/src"` (resp. `k ++ "/pkg/mod"`) is exactly
+`parts[:i]` joined, and `parts[i:]` joined exists under `l/src` (resp.
+`l/pkg/mod`).  The cut is at a component boundary and what was removed from
+`parts[:i]` to get `k` is the directory `/src` (resp. `/pkg/mod`) itself. -/
+theorem detected_gopath_at_boundary (fs : FS) (s : Snapshot) {st : RootsState} (h : s.findRoots fs = .ok st)
+    {k l : Bytes} (hk : (k, l) ∈ st.gopaths) :
+    l ∈ s.localGOPATHs ∧ ∃ g ∈ s.goroutines, ∃ c ∈ g.sig.stack.calls,
+      ∃ i, 0 < i ∧ i < (splitPath c.remoteSrcPath).length ∧
+      ((k ++ srcDir = pathJoin ((splitPath c.remoteSrcPath).take i) ∧
+          fs.isFile (l ++ srcDir ++ b!"/" ++ pathJoin ((splitPath c.remoteSrcPath).drop i)) = true) ∨
+       (k ++ pkgmodDir = pathJoin ((splitPath c.remoteSrcPath).take i) ∧
+          fs.isFile (l ++ pkgmodDir ++ b!"/" ++ pathJoin ((splitPath c.remoteSrcPath).drop i)) = true)) := by
+  obtain ⟨hl, f, hf, hw⟩ := (findRoots_sound fs s h).2.1 _ hk
+  obtain ⟨g, hg, c, hc, rfl⟩ := mem_getFiles.mp hf
+  refine ⟨hl, g, hg, c, hc, ?_⟩
+  rcases hw with ⟨i, h1, h2, h3, h4⟩ | ⟨i, h1, h2, h3, h4⟩
+  · exact ⟨i, h1, h2, Or.inl ⟨h3, h4⟩⟩
+  · exact ⟨i, h1, h2, Or.inr ⟨h3, h4⟩⟩
+
+/-- 7, GOROOT, at the level of path components. -/
+theorem detected_goroot_at_boundary (fs : FS) (s : Snapshot) {st : RootsState} (h : s.findRoots fs = .ok st)
+    (hne : st.goroot ≠ s.remoteGOROOT) :
+    ∃ g ∈ s.goroutines, ∃ c ∈ g.sig.stack.calls, ∃ i, 0 < i ∧ i < (splitPath c.remoteSrcPath).length ∧
+      st.goroot ++ srcDir = pathJoin ((splitPath c.remoteSrcPath).take i) ∧
+      fs.isFile (s.localGOROOT ++ srcDir ++ b!"/" ++ pathJoin ((splitPath c.remoteSrcPath).drop i)) = true := by
+  rcases (findRoots_sound fs s h).1 with h1 | ⟨f, hf, hw⟩
+  · exact absurd h1 hne
+  · obtain ⟨g, hg, c, hc, rfl⟩ := mem_getFiles.mp hf
+    exact ⟨g, hg, c, hc, hw⟩
+
+/-- 7, the directory cut off really is the part `src`: when `k ++ "/src"` is
+`parts[:i]` joined (`parts = splitPath f`, the shape given by
+`detected_gopath_at_boundary` / `detected_goroot_at_boundary`) and `i ≥ 2`, then
+`parts[i-1] = "src"` and `k` is `parts[:i-1]` joined — the cut is between two
+parts of the frame's path. -/
+theorem cut_is_src_part {f k : Bytes} {i : Nat} (h2 : 2 ≤ i) (hi : i ≤ (splitPath f).length)
+    (h : k ++ srcDir = pathJoin ((splitPath f).take i)) :
+    (splitPath f)[i - 1]? = some b!"src" ∧ k = pathJoin ((splitPath f).take (i - 1)) :=
+  cut_last_part (x := b!"src") (splitPath_shape f) h2 hi (by decide) h
+
+/-- … and for `i = 1` the first part (which keeps the leading slashes of the
+path) is `k ++ "/src"` with `k` a run of `/` (`/src/fmt/print.go` gives the
+root `""`). -/
+theorem cut_in_first_part {f k : Bytes} (h : k ++ srcDir = pathJoin ((splitPath f).take 1)) :
+    (splitPath f).head? = some (k ++ srcDir) ∧ ∀ c ∈ k, c = 47 := by
+  have hs := (splitPath_shape f).head
+  cases hp : splitPath f with
+  | nil =>
+    rw [hp] at h
+    exact absurd (congrArg List.length h) (by simp [srcDir, pathJoin, Bytes.join])
+  | cons a t =>
+    rw [hp] at h hs
+    have e : a = k ++ srcDir := h.symm
+    refine ⟨by simp [e], ?_⟩
+    have := hs a (by simp)
+    rw [e] at this
+    exact firstShape_cut (x := b!"src") this
+
+/-- 7, `/pkg/mod`: when `k ++ "/pkg/mod"` is `parts[:i]` joined and `i ≥ 3`, then
+`parts[i-2] = "pkg"`, `parts[i-1] = "mod"` and `k` is `parts[:i-2]` joined. -/
+theorem cut_is_pkgmod_parts {f k : Bytes} {i : Nat} (h3 : 3 ≤ i) (hi : i ≤ (splitPath f).length)
+    (h : k ++ pkgmodDir = pathJoin ((splitPath f).take i)) :
+    (splitPath f)[i - 2]? = some b!"pkg" ∧ (splitPath f)[i - 1]? = some b!"mod" ∧
+      k = pathJoin ((splitPath f).take (i - 2)) := by
+  have h' : (k ++ b!"/pkg") ++ 47 :: b!"mod" = pathJoin ((splitPath f).take i) := by
+    rw [← h]; simp [pkgmodDir]
+  obtain ⟨e1, e2⟩ := cut_last_part (splitPath_shape f) (by omega) hi (by decide) h'
+  obtain ⟨e3, e4⟩ := cut_last_part (k := k) (x := b!"pkg") (splitPath_shape f) (i := i - 1) (by omega) (by omega)
+    (by decide) e2
+  exact ⟨by rw [← e3]; congr 1, e1, by rw [e4]; congr 2⟩
+
 /-- 7, "a detected root is a prefix of the frames it explains": a detected
 GOPATH key is a prefix of the normalised path of a frame of some stack, followed
-by 4 (`/src`) or 8 (`/pkg/mod`) bytes, a `/`, and a path that exists under the
-local root. -/
+by `/src/` (resp. `/pkg/mod/`) and a path that exists under the local root. -/
 theorem detected_gopath_is_prefix (fs : FS) (s : Snapshot) {st : RootsState} (h : s.findRoots fs = .ok st)
     {k l : Bytes} (hk : (k, l) ∈ st.gopaths) :
-    l ∈ s.localGOPATHs ∧ ∃ g ∈ s.goroutines, ∃ c ∈ g.sig.stack.calls, ∃ mid rel,
-      pathJoin (splitPath c.remoteSrcPath) = k ++ mid ++ b!"/" ++ rel ∧
-      ((mid.length = 4 ∧ fs.isFile (l ++ srcDir ++ b!"/" ++ rel) = true) ∨
-       (mid.length = 8 ∧ fs.isFile (l ++ pkgmodDir ++ b!"/" ++ rel) = true)) := by
+    l ∈ s.localGOPATHs ∧ ∃ g ∈ s.goroutines, ∃ c ∈ g.sig.stack.calls, ∃ rel,
+      (pathJoin (splitPath c.remoteSrcPath) = k ++ srcSep ++ rel ∧
+          fs.isFile (l ++ srcSep ++ rel) = true) ∨
+      (pathJoin (splitPath c.remoteSrcPath) = k ++ pkgmodSep ++ rel ∧
+          fs.isFile (l ++ pkgmodSep ++ rel) = true) := by
   obtain ⟨hl, f, hf, hw⟩ := (findRoots_sound fs s h).2.1 _ hk
   obtain ⟨g, hg, c, hc, rfl⟩ := mem_getFiles.mp hf
   refine ⟨hl, g, hg, c, hc, ?_⟩
   rcases hw with hw | hw
-  · obtain ⟨mid, rel, h1, h2, h3⟩ := hw.prefix
-    exact ⟨mid, rel, h2, Or.inl ⟨h1, h3⟩⟩
-  · obtain ⟨mid, rel, h1, h2, h3⟩ := hw.prefix
-    exact ⟨mid, rel, h2, Or.inr ⟨h1, h3⟩⟩
+  · obtain ⟨rel, h2, h3⟩ := hw.prefix
+    exact ⟨rel, Or.inl ⟨by rw [h2]; simp [srcDir, srcSep], by rw [← h3]; simp [srcDir, srcSep]⟩⟩
+  · obtain ⟨rel, h2, h3⟩ := hw.prefix
+    exact ⟨rel, Or.inr ⟨by rw [h2]; simp [pkgmodDir, pkgmodSep], by rw [← h3]; simp [pkgmodDir, pkgmodSep]⟩⟩
 
 theorem detected_goroot_is_prefix (fs : FS) (s : Snapshot) {st : RootsState} (h : s.findRoots fs = .ok st)
     (hne : st.goroot ≠ s.remoteGOROOT) :
-    ∃ g ∈ s.goroutines, ∃ c ∈ g.sig.stack.calls, ∃ mid rel, mid.length = 4 ∧
-      pathJoin (splitPath c.remoteSrcPath) = st.goroot ++ mid ++ b!"/" ++ rel ∧
-      fs.isFile (s.localGOROOT ++ srcDir ++ b!"/" ++ rel) = true := by
+    ∃ g ∈ s.goroutines, ∃ c ∈ g.sig.stack.calls, ∃ rel,
+      pathJoin (splitPath c.remoteSrcPath) = st.goroot ++ srcSep ++ rel ∧
+      fs.isFile (s.localGOROOT ++ srcSep ++ rel) = true := by
   rcases (findRoots_sound fs s h).1 with h1 | ⟨f, hf, hw⟩
   · exact absurd h1 hne
   · obtain ⟨g, hg, c, hc, rfl⟩ := mem_getFiles.mp hf
-    obtain ⟨mid, rel, h1, h2, h3⟩ := hw.prefix
-    exact ⟨g, hg, c, hc, mid, rel, h1, h2, h3⟩
+    obtain ⟨rel, h2, h3⟩ := hw.prefix
+    exact ⟨g, hg, c, hc, rel, by rw [h2]; simp [srcDir, srcSep], by rw [← h3]; simp [srcDir, srcSep]⟩
 
 /-- 7, modules: a detected module root is a directory prefix of a stack frame
 (`parts[:i]` joined) whose go.mod matched, or `path.Dir` of an existing frame. -/
@@ -342,14 +435,42 @@ theorem detected_gomod_is_prefix (fs : FS) (s : Snapshot) {st : RootsState} (h :
   · exact Or.inr hw
 
 /-- On a path that `splitPath` does not alter (no empty element, no trailing
-slash, valid UTF-8) and when the 4 bytes cut are `/src`, the witness reads
-`f = root ++ "/src/" ++ rel`. -/
-theorem witness_clean_src {f k mid rel : Bytes} (hclean : pathJoin (splitPath f) = f)
-    (h : pathJoin (splitPath f) = k ++ mid ++ b!"/" ++ rel) (hmid : mid = srcDir) :
+slash, valid UTF-8), the witness reads `f = root ++ "/src/" ++ rel`. -/
+theorem witness_clean_src {f k rel : Bytes} (hclean : pathJoin (splitPath f) = f)
+    (h : pathJoin (splitPath f) = k ++ srcSep ++ rel) :
     f = k ++ srcSep ++ rel := by
   rw [hclean] at h
-  rw [h, hmid]
-  simp [srcDir, srcSep]
+  exact h
+
+/-- 7, clean paths: when the frames' paths are clean (`splitPath` then `pathJoin`
+gives the path back: no `//`, no trailing `/`, valid UTF-8), a detected GOPATH
+entry `(k, l)` is literally a prefix of a frame of some stack:
+`path = k ++ "/src/" ++ rel` with `l ++ "/src/" ++ rel` a file, or
+`path = k ++ "/pkg/mod/" ++ rel` with `l ++ "/pkg/mod/" ++ rel` a file.  No
+hypothesis on the bytes that were cut is needed any more. -/
+theorem detected_gopath_clean (fs : FS) (s : Snapshot) {st : RootsState} (h : s.findRoots fs = .ok st)
+    (hclean : ∀ g ∈ s.goroutines, ∀ c ∈ g.sig.stack.calls,
+      pathJoin (splitPath c.remoteSrcPath) = c.remoteSrcPath)
+    {k l : Bytes} (hk : (k, l) ∈ st.gopaths) :
+    l ∈ s.localGOPATHs ∧ ∃ g ∈ s.goroutines, ∃ c ∈ g.sig.stack.calls, ∃ rel,
+      (c.remoteSrcPath = k ++ srcSep ++ rel ∧ fs.isFile (l ++ srcSep ++ rel) = true) ∨
+      (c.remoteSrcPath = k ++ pkgmodSep ++ rel ∧ fs.isFile (l ++ pkgmodSep ++ rel) = true) := by
+  obtain ⟨hl, g, hg, c, hc, rel, hw⟩ := detected_gopath_is_prefix fs s h hk
+  refine ⟨hl, g, hg, c, hc, rel, ?_⟩
+  rw [hclean g hg c hc] at hw
+  exact hw
+
+/-- 7, clean paths, GOROOT: a `RemoteGOROOT` that `findRoots` set satisfies
+`path = RemoteGOROOT ++ "/src/" ++ rel` for a frame of some stack, with
+`LocalGOROOT ++ "/src/" ++ rel` a file. -/
+theorem detected_goroot_clean (fs : FS) (s : Snapshot) {st : RootsState} (h : s.findRoots fs = .ok st)
+    (hclean : ∀ g ∈ s.goroutines, ∀ c ∈ g.sig.stack.calls,
+      pathJoin (splitPath c.remoteSrcPath) = c.remoteSrcPath)
+    (hne : st.goroot ≠ s.remoteGOROOT) :
+    ∃ g ∈ s.goroutines, ∃ c ∈ g.sig.stack.calls, ∃ rel,
+      c.remoteSrcPath = st.goroot ++ srcSep ++ rel ∧ fs.isFile (s.localGOROOT ++ srcSep ++ rel) = true := by
+  obtain ⟨g, hg, c, hc, rel, h1, h2⟩ := detected_goroot_is_prefix fs s h hne
+  exact ⟨g, hg, c, hc, rel, by rw [← hclean g hg c hc]; exact h1, h2⟩
 
 /-- `guessPaths` = `findRoots`, then `updateLocations` of every goroutine with
 the roots found: the per-call theorems above apply to each frame. -/
@@ -507,15 +628,33 @@ example : NoOtherClaim { goroot := b!"/g", gopaths := [(b!"/r", b!"/L")], gomods
   ⟨Or.inr (by decide), by intro k hk hne; simp [AMap.keys] at hk; exact absurd hk hne,
    by intro k hk; simp [AMap.keys] at hk; subst hk; decide⟩
 
-/-- the Go code panics here (slice bounds out of range in findRoots): the model
-says so -/
-example : (match (snap [b!"/x/fmt/print.go"]).guessPaths fs with
-    | .error e => e == .sliceGoroot | .ok _ => false) = true := by decide
+/-- Before the fix the Go code panicked here (slice bounds out of range in
+`findRoots`: `isRootedIn` answered `/x`, shorter than `/src`).  Now the frame
+detects nothing and is counted as missing. -/
+example : (snap [b!"/x/fmt/print.go"]).findRoots fs =
+    .ok { goroot := [], gopaths := [], gomods := [], missing := 1, cache := [b!"/x", b!"/x/fmt"] } := by rfl
 
-/-- a spurious suffix collision yields a root that is not at a `/src` boundary:
-the reason why theorem 7 speaks of "4 bytes cut" and not of `/src` -/
-example : (match (snap [b!"/home/fmt/print.go"]).findRoots fs with
-    | .ok st => st.goroot == b!"/" | .error _ => false) = true := by decide
+example : (match (snap [b!"/x/fmt/print.go"]).guessPaths fs with
+    | .ok (s', b) => s'.remoteGOROOT == [] && b == false | .error _ => false) = true := by decide
+
+/-- Before the fix a spurious suffix collision (`fmt/print.go` exists under the
+local GOROOT) gave `RemoteGOROOT = "/"` for this frame.  Now `isRootedIn`
+answers `/home`, which does not end with `/src`: nothing is detected. -/
+example : isRootedIn fs b!"/G/src" (splitPath b!"/home/fmt/print.go") = b!"/home" := by decide
+example : (snap [b!"/home/fmt/print.go"]).findRoots fs =
+    .ok { goroot := [], gopaths := [], gomods := [], missing := 1, cache := [b!"/home", b!"/home/fmt"] } := by rfl
+
+/-- the same file under a real `/src` is still detected -/
+example : (match (snap [b!"/home/src/fmt/print.go"]).findRoots fs with
+    | .ok st => st.goroot == b!"/home" && st.missing == 0 | .error _ => false) = true := by decide
+
+/-- the hypotheses of `cut_is_src_part` / `cut_in_first_part` are satisfiable -/
+example : b!"/r" ++ srcDir = pathJoin ((splitPath b!"/r/src/p/a.go").take 2) := by decide
+example : b!"/r" ++ pkgmodDir = pathJoin ((splitPath b!"/r/pkg/mod/m@v1/a.go").take 3) := by decide
+example : [] ++ srcDir = pathJoin ((splitPath b!"/src/fmt/print.go").take 1) := by decide
+/-- a frame directly under `/src`: the root is `""`, the frame is not missing -/
+example : (snap [b!"/src/fmt/print.go"]).findRoots fs =
+    .ok { goroot := [], gopaths := [], gomods := [], missing := 0, cache := [] } := by rfl
 
 end PP.C18.Examples
 
@@ -533,10 +672,20 @@ end PP.C18.Examples
 #print axioms PP.C18.innermost_root
 #print axioms PP.C18.updateLocations_perm
 #print axioms PP.C18.goroutine_updateLocations_perm
+#print axioms PP.C18.findRoots_no_panic
+#print axioms PP.C18.guessPaths_no_panic
+#print axioms PP.C18.hasSuffix_length_le
 #print axioms PP.C18.findRoots_sound
+#print axioms PP.C18.detected_gopath_at_boundary
+#print axioms PP.C18.detected_goroot_at_boundary
+#print axioms PP.C18.cut_is_src_part
+#print axioms PP.C18.cut_in_first_part
+#print axioms PP.C18.cut_is_pkgmod_parts
 #print axioms PP.C18.detected_gopath_is_prefix
 #print axioms PP.C18.detected_goroot_is_prefix
 #print axioms PP.C18.detected_gomod_is_prefix
 #print axioms PP.C18.witness_clean_src
+#print axioms PP.C18.detected_gopath_clean
+#print axioms PP.C18.detected_goroot_clean
 #print axioms PP.C18.guessPaths_shape
 #print axioms PP.C18.layout_correct_partial
